@@ -41,7 +41,9 @@ var typeByName = map[string]reflect.Type{
 	"T4": reflect.TypeOf(T4{}), "T5": reflect.TypeOf(T5{}), "T6": reflect.TypeOf(T6{}), "T7": reflect.TypeOf(t7{}),
 	// P1 is the pointer type *T1: an unnamed type (Name() is empty) that implements I1 through T1's method
 	"P1": reflect.TypeOf(&T1{}),
-	"I1": reflect.TypeOf((*I1)(nil)).Elem(), "I2": reflect.TypeOf((*I2)(nil)).Elem(),
+	// PI1 is the pointer type *I1 (a pointer to an interface variable): an ordinary type that nothing implements
+	"PI1": reflect.TypeOf((*I1)(nil)),
+	"I1":  reflect.TypeOf((*I1)(nil)).Elem(), "I2": reflect.TypeOf((*I2)(nil)).Elem(),
 	"I12": reflect.TypeOf((*I12)(nil)).Elem(),
 	// U1 is an unnamed struct type: every Tk is assignable to it (and back) without being
 	// identical to it, so it tells type identity from mere assignability.
@@ -85,6 +87,10 @@ func MkValueAs(cname string, id int) interface{} {
 	}
 	if cname == "P1" {
 		return &T1{ID: id}
+	}
+	if cname == "PI1" {
+		var i I1 = T1{ID: id}
+		return &i
 	}
 	v := reflect.New(TypeOf(cname)).Elem()
 	v.Field(0).SetInt(int64(id))
@@ -132,6 +138,9 @@ func MkValue(tname string, id int) reflect.Value {
 		v = reflect.ValueOf(&EV{ID: id})
 	} else if cn == "P1" {
 		v = reflect.ValueOf(&T1{ID: id})
+	} else if cn == "PI1" {
+		var i I1 = T1{ID: id}
+		v = reflect.ValueOf(&i)
 	} else {
 		v = reflect.New(TypeOf(cn)).Elem()
 		v.Field(0).SetInt(int64(id))
